@@ -150,6 +150,9 @@ def run(res, proofs_ok, proofs_why, only=None):
                        "first_differences": diffs[:5], "count": len(diffs)}, found_input=False)
     if only is None:
         poller_part(res, rng)
+        # "when the PHC is the reference": the configured name must become the number chronyd reports for it
+        from props import C13
+        C13.refid_part(res, "C07")
     if not proofs_ok:
         res.violation({"property": "C07", "kind": "obligation", "obligation": proofs_why}, found_input=False)
 
